@@ -16,6 +16,8 @@ import time
 import traceback
 
 sys.path.insert(0, os.path.dirname(os.path.abspath(__file__)))
+import logging
+logging.disable(logging.CRITICAL)
 import common
 from common import VERIF, LEAN
 
@@ -37,7 +39,7 @@ def main():
     prop, tier = a.prop.upper(), a.tier
     if tier not in ("quick", "thorough"):
         tier = "quick"
-    t0 = time.time()
+    t0 = time.perf_counter()
     mod = importlib.import_module(prop.lower())
     seed = common.seed()
     rng = random.Random(f"{prop}:{seed}")
@@ -215,7 +217,7 @@ def main():
             "modelled_vs_verified": getattr(mod, "MODELLED", ""),
         },
         "assumptions": getattr(mod, "ASSUMPTIONS", []),
-        "wall_s": round(time.time() - t0, 2),
+        "wall_s": round(time.perf_counter() - t0, 2),
         "violations": 1 if rc == 1 else 0,
     }
     if hasattr(mod, "evidence_extra"):
